@@ -556,7 +556,7 @@ if __name__ == "__main__":
                          for n in found if n not in RECIPES}
     harness.main(
         PROP, "exploration", case, setup_fn=setup,
-        tiers=dict(quick=dict(cases=96, shards=8, time=100), thorough=dict(cases=4000, shards=16, time=600)),
+        tiers=dict(quick=dict(cases=96, shards=8, time=900), thorough=dict(cases=4000, shards=16, time=3000)),
         rule="file objects built from random arrays: Gamma-centred meshes (1,1,1)...(3,3,3) incl. anisotropic ones in random "
              "k order, NB 1-8, NW 1-NB, NNB from the real b-vector search on random/Bravais lattices, data magnitudes "
              "1e-11...1e3, optional tags present/absent, random bk_reorder, full and sparse-k objects; every case holds random "
